@@ -30,7 +30,7 @@
 (*   gen, run.start, files.scan: no action                                  *)
 (*   out.daily / out.yearly / out.crop: compared with recs                  *)
 (***************************************************************************)
-EXTENDS HermesRun, CalendarFn, Json, TLC
+EXTENDS HermesRun, CalendarFn, AutoFertFn, Json, TLC
 
 Trace == ndJsonDeserialize("trace.ndjson")
 
@@ -116,8 +116,19 @@ TSubCrop == /\ IsEvent("sub.crop")
             /\ crp'.stage = E.intwick /\ crp'.growing = E.growing
             /\ (E.growing /\ E.sowday <=> Len(done'.sow) = Len(done.sow) + 1)
             /\ UNCHANGED oc
+\* automatic fertilisation (AutoFertFn): the decision table is evaluated on the state the code logged before the block
+\* (with sub.crop, the event before this one); the keys of the three dressings after the block and the N that went to the
+\* fertiliser pool (1e-6 kg N/ha; the amounts are rounded projections: 5 units) must be what the table yields - for one of
+\* the two values of the weather condition of a day-keyed first dressing, which is not logged
+AFConforms(pre, post, zeit) ==
+   \E trig \in BOOLEAN :
+      LET r == Predict(pre, zeit, trig, TRUE) IN
+      /\ r.nd = post.nd
+      /\ r.ztdgCur = post.ztdgCur
+      /\ r.pool - post.pool <= 5 /\ post.pool - r.pool <= 5
 TNitroMineral == /\ IsEvent("nitro.mineral") /\ NitroMineral
                  /\ ph' = "move" /\ CursorsMatch(E)
+                 /\ (proj.autoFert /\ Has(E, "af") /\ l > 1 /\ Has(Trace[l - 1], "af")) => AFConforms(Trace[l - 1].af, E.af, E.zeit)
                  /\ UNCHANGED oc
 TNitroMove == /\ IsEvent("nitro.move")
               /\ \E sk \in BOOLEAN : NitroMove(sk)
